@@ -1,4 +1,4 @@
 SPECIFICATION Spec
-CONSTANTS InitCap = 2  MaxCap = 4  Gap = 1  Ids = {1}  MaxPub = 5  W = {1, 2}  Tails = {2}
+CONSTANTS InitCap = 2  MaxCap = 4  Gap = 1  Ids = {1}  MaxPub = 5  W = {1, 2}  Tails = {2}  BBs = {FALSE}
 INVARIANTS RingCorrect NoBadDelivery ErroredOnlyIfLagged QuietComplete RecentBookmarksAccepted AcceptedBookmarkRetained
 CHECK_DEADLOCK FALSE
